@@ -25,7 +25,8 @@ RULE = (
     "during bootstrap / bulk transfer."
 )
 ASSUMPTIONS = [
-    "bound 25 s: the code's escalation ladder is 5 s (wait) + SIGINT + 10 s (wait) + os._exit; observed maximum 15.0 s",
+    "bound 25 s (40 s when a via worker is involved: its clock starts when its forwarder has gone): the code's escalation "
+    "ladder is 5 s (wait) + SIGINT + 10 s (wait) + os._exit; observed maximum 15.0 s direct, about 20 s through a forwarder",
     "gevent workers with a blocked hub and workers with extra NON-daemon threads are outside the property's domain "
     "(cooperative activities only / 'extra daemon threads'); they are not generated",
     "the OS schedule inside the worker is not owned; cases run at most 24 at a time",
@@ -112,8 +113,11 @@ class Orphans(Part):
                     p.wait(60)
                     t0 = time.time()
             # every worker must disappear by itself
+            # a proxied (via) worker only notices once its forwarder has gone through its own ladder (up to 5 s for a
+            # forwarder whose proxy loop has to be interrupted): its 15 s start then
+            bound = BOUND + (15.0 if any(w["topology"] == "via" for w in ws) else 0.0)
             left = list(pids)
-            while left and time.time() - t0 < BOUND:
+            while left and time.time() - t0 < bound:
                 left = [x for x in left if alive(x)]
                 if left:
                     time.sleep(0.1)
@@ -121,7 +125,7 @@ class Orphans(Part):
             if left:
                 names = [f"{w['topology']}/{w['model']}/{w['activity']}" for w in ws]
                 raise Violation("orphans.worker-outlives-initiator",
-                                f"{len(left)} of {len(pids)} worker processes still alive {BOUND:.0f} s after the initiator "
+                                f"{len(left)} of {len(pids)} worker processes still alive {bound:.0f} s after the initiator "
                                 f"ended by {case['end']!r}; workers {names}",
                                 site=case["end"])
             acts = sorted({"activity:" + w["activity"] for w in ws})
